@@ -47,6 +47,17 @@ Proof. vm_compute. reflexivity. Qed.
 Lemma gen_send_loop_indexes_batch : Gen.send_loop_indexes_batch = true.
 Proof. reflexivity. Qed.
 
+(* smtp.go Mail / Rcpt: the guard of every ESMTP parameter is exactly the lookup of its extension in the map of the
+   latest EHLO reply (RET= / NOTIFY= additionally: the DSN option is configured) - nothing else, in particular not
+   the address text.  This is what mail_params / rcpt_params of the model compute. *)
+Lemma gen_param_guards :
+  Gen.param_guards =
+    [(bs " BODY=8BITMIME", bs "_, ok := c.ext[""8BITMIME""]; ok");
+     (bs " SMTPUTF8", bs "_, ok := c.ext[""SMTPUTF8""]; ok");
+     (bs " RET=%s", bs "_, ok := c.ext[""DSN""]; ok && c.dsnmrtype != """"");
+     (bs "RCPT TO:<%s> NOTIFY=%s", bs "_, ok := c.ext[""DSN""]; ok && c.dsnrntype != """"")].
+Proof. vm_compute. reflexivity. Qed.
+
 (* smtp.go dataCloser.Close reads the whole (possibly multi-line) reply: one reply per command in the model's queue *)
 Lemma gen_eod_reads_full_response : Gen.eod_reads_full_response = true.
 Proof. reflexivity. Qed.
